@@ -64,28 +64,15 @@ Definition Inv1 (s : aio) : Prop :=
 Lemma inv1_init : Inv1 aio_init.
 Proof. unfold Inv1, tokens; cbn. repeat split; auto; try lia; intros; discriminate. Qed.
 
-Ltac tok_simp := unfold tokens, spawn in *; cbn [app] in *; simp_a; rewrite ?tok_threads_app in *; cbn [tok_threads tok_thread tok_act app] in *.
+Section Fixed.
+Variable fixed : bool.
 
-Lemma run_pact_tokens s a s1 more :
-  run_pact s a = Some (s1, more) ->
-  (* token moves: counted over owner flag + the continuation of this thread *)
-  (if p_owns s1 then 1 else 0) + tok_thread more + t_queued s1 = (if p_owns s then 1 else 0) + tok_act a + t_queued s /\
-  threads s1 = threads s /\ g_subs s1 = g_subs s /\ g_cbs s1 = g_cbs s /\ t_running s1 = t_running s /\
-  t_busy s1 = (match a with PDispatch => if t_prep s then t_busy s else S (t_busy s) | _ => t_busy s end) /\
-  t_prep s1 = (match a with PDispatch => false | _ => t_prep s end).
-Proof.
-  destruct a; cbn [run_pact]; intros H.
-  - inversion H; subst. unfold do_dispatch. simp_a. cbn. repeat split; lia.
-  - inversion H; subst. unfold do_finish. simp_a. cbn. repeat split; lia.
-  - unfold do_call_cancel in H. destruct (p_owns s) eqn:O; inversion H; subst; simp_a; cbn; rewrite ?O; repeat split; lia.
-  - inversion H; subst. simp_a. cbn. repeat split; lia.
-  - destruct (t_busy s =? 0); inversion H; subst. simp_a. cbn. repeat split; lia.
-Qed.
+Ltac tok_simp := unfold tokens, spawn in *; cbn [app] in *; simp_a; rewrite ?tok_threads_app in *; cbn [tok_threads tok_thread tok_act app] in *.
 
 Ltac inv5 := split; [|split; [|split; [|split; [split|]]]].
 Ltac i4 I4 := try (intros P; apply I4 in P; lia); try (intros P; apply I4; lia).
 
-Theorem inv1_step s l s' : Inv1 s -> astep s l = Some s' -> Inv1 s'.
+Theorem inv1_step s l s' : Inv1 s -> astep fixed s l = Some s' -> Inv1 s'.
 Proof.
   intros (I1 & I2 & I3 & I4 & I5) H. unfold Inv1.
   destruct l as [zero dl sleep eok|rv|rv|now| | |k| | | ]; cbn [astep] in H.
@@ -104,14 +91,10 @@ Proof.
     destruct (rv =? 0)%N; [discriminate|].
     destruct (a_cancel s); inversion H; subst; clear H; tok_simp; inv5; try lia; auto; i4 I4;
       try (intros SL; apply I5 in SL; tauto).
-  - (* LExpire *)
+  - (* LExpire: the scan only marks *)
     destruct (a_on_eq s); [|discriminate].
     destruct (negb match a_expire s with Some e => (e <? now)%N | None => false end); [discriminate|].
-    destruct (a_sleep s) eqn:SL.
-    + destruct (I5 eq_refl) as [O PS]. inversion H; subst; clear H. tok_simp. rewrite O in *.
-      inv5; try lia; auto; i4 I4; try discriminate.
-    + destruct (a_cancel s); inversion H; subst; clear H; tok_simp; inv5; try lia; auto; i4 I4;
-        try discriminate.
+    inversion H; subst; clear H. tok_simp. inv5; try lia; auto; i4 I4.
   - (* LStop *)
     destruct (a_expiring s); [discriminate|]. inversion H; subst; clear H.
     destruct (a_cancel s); tok_simp; inv5; try lia; auto; i4 I4.
@@ -120,37 +103,60 @@ Proof.
     destruct (a_cancel s); tok_simp; inv5; try lia; auto; i4 I4.
   - (* LRun k *)
     destruct (nth_error (threads s) k) as [[|a rest]|] eqn:N; try discriminate.
-    destruct (run_pact s a) as [[s1 more]|] eqn:R; [|discriminate]. inversion H; subst; clear H.
-    destruct (run_pact_tokens _ _ _ _ R) as (T & TH & SU & CB & RU & BU & PR).
-    assert (TK: tok_threads (replace_nth (threads s1) k (match more ++ rest with [] => None | _ :: _ => Some (more ++ rest) end))
-                + (tok_act a + tok_thread rest) = tok_threads (threads s) + tok_thread (more ++ rest)).
-    { rewrite TH. pose proof (tok_replace (threads s) k (a :: rest) (match more ++ rest with [] => None | _ :: _ => Some (more ++ rest) end) N) as X.
-      cbn [tok_thread] in X. destruct (more ++ rest) eqn:MR; cbn [tok_thread] in *; lia. }
-    rewrite tok_thread_app in TK.
-    unfold tokens in *. simp_a.
-    assert (SLP: a_sleep s1 = true -> p_owns s1 = true /\ p_sleep s1 = true).
-    { clear - R I5. destruct a; cbn [run_pact] in R.
-      - inversion R; subst. unfold do_dispatch; simp_a. exact I5.
-      - inversion R; subst. unfold do_finish; simp_a. discriminate.
-      - unfold do_call_cancel in R. destruct (p_owns s) eqn:O; inversion R; subst; simp_a.
-        + destruct (p_sleep s) eqn:PS; [discriminate|]. intros SL. destruct (I5 SL) as [_ X]. congruence.
-        + intros SL. destruct (I5 SL) as [X _]. congruence.
-      - inversion R; subst. simp_a. exact I5.
-      - destruct (t_busy s =? 0); inversion R; subst. simp_a. exact I5. }
-    destruct a; cbn [tok_act run_pact] in *.
+    destruct (run_pact fixed s a) as [[s1 more]|] eqn:R; [|discriminate]. inversion H; subst; clear H.
+    pose proof (tok_replace (threads s) k (a :: rest)) as TR.
+    unfold tokens in *.
+    destruct a; cbn [run_pact] in R.
     + (* PDispatch *)
-      assert (H: t_prep s = true).
+      assert (HP: t_prep s = true).
       { apply I4. pose proof (tok_in_threads (threads s) PDispatch rest (nth_error_In _ _ N) eq_refl). lia. }
-      inversion R; subst s1 more; clear R. unfold do_dispatch in *. simp_a. cbn [tok_thread app] in *. rewrite H in *.
+      inversion R; subst s1 more; clear R. unfold do_dispatch in *. simp_a. cbn [app] in *.
+      specialize (TR (match rest with [] => None | _ :: _ => Some rest end) N). cbn [tok_thread tok_act] in TR. rewrite HP in *.
+      assert (E: tok_threads (replace_nth (threads s) k match rest with [] => None | _ :: _ => Some rest end) + 1 = tok_threads (threads s))
+        by (destruct rest; cbn [tok_thread] in TR; lia).
       inv5; try lia; auto; try (intros; discriminate).
     + (* PFinish *)
-      inversion R; subst s1 more; clear R. unfold do_finish in *. simp_a. cbn [tok_thread tok_act app] in *.
-      inv5; try lia; auto; i4 I4.
+      inversion R; subst s1 more; clear R. unfold do_finish in *. simp_a. cbn [app] in *.
+      specialize (TR (Some (PDispatch :: rest)) N). cbn [tok_thread tok_act] in TR.
+      inv5; try lia; auto; i4 I4; try discriminate.
     + (* PCallCancel *)
-      unfold do_call_cancel in R. destruct (p_owns s) eqn:O; inversion R; subst s1 more; clear R; simp_a;
-        cbn [tok_thread tok_act app] in *; inv5; try lia; auto; i4 I4.
-    + inversion R; subst s1 more; clear R. simp_a. cbn [tok_thread tok_act app] in *. inv5; try lia; auto; i4 I4.
-    + destruct (t_busy s =? 0); inversion R; subst s1 more; clear R. simp_a. cbn [tok_thread tok_act app] in *.
+      unfold do_call_cancel in R. destruct (p_owns s) eqn:O; inversion R; subst s1 more; clear R; simp_a; cbn [app] in *.
+      * specialize (TR (Some (PFinish rv :: rest)) N). cbn [tok_thread tok_act] in TR.
+        rewrite ?O. inv5; try lia; auto; i4 I4.
+        destruct (p_sleep s) eqn:PS; [discriminate|]. intros SL. destruct (I5 SL) as [_ X]. congruence.
+      * specialize (TR (match rest with [] => None | _ :: _ => Some rest end) N). cbn [tok_thread tok_act] in TR.
+        assert (E: tok_threads (replace_nth (threads s) k match rest with [] => None | _ :: _ => Some rest end) = tok_threads (threads s))
+          by (destruct rest; cbn [tok_thread] in TR; lia).
+        rewrite ?O. inv5; try lia; auto; i4 I4.
+    + (* PExpireProc *)
+      unfold do_expire_proc in R.
+      destruct (fixed && negb match a_expire s with Some e => (e <? now)%N | None => false end).
+      * inversion R; subst s1 more; clear R. simp_a. cbn [app] in *.
+        specialize (TR (match rest with [] => None | _ :: _ => Some rest end) N). cbn [tok_thread tok_act] in TR.
+        assert (E: tok_threads (replace_nth (threads s) k match rest with [] => None | _ :: _ => Some rest end) = tok_threads (threads s))
+          by (destruct rest; cbn [tok_thread] in TR; lia).
+        inv5; try lia; auto; i4 I4.
+      * destruct (a_sleep s) eqn:SL; [|destruct (a_cancel s) eqn:C]; inversion R; subst s1 more; clear R; simp_a; cbn [app] in *.
+        -- destruct (I5 eq_refl) as [O PS]. rewrite O in *.
+           specialize (TR (Some (PDispatch :: rest)) N). cbn [tok_thread tok_act] in TR.
+           inv5; try lia; auto; i4 I4; try discriminate.
+        -- specialize (TR (Some (PCallCancel (if a_expire_ok s then A_OK else A_TIMEDOUT) :: PExpireDone :: rest)) N). cbn [tok_thread tok_act] in TR.
+           inv5; try lia; auto; i4 I4; try discriminate.
+        -- specialize (TR (match rest with [] => None | _ :: _ => Some rest end) N). cbn [tok_thread tok_act] in TR.
+           assert (E: tok_threads (replace_nth (threads s) k match rest with [] => None | _ :: _ => Some rest end) = tok_threads (threads s))
+             by (destruct rest; cbn [tok_thread] in TR; lia).
+           inv5; try lia; auto; i4 I4; try discriminate.
+    + (* PExpireDone *)
+      inversion R; subst s1 more; clear R. simp_a. cbn [app] in *.
+      specialize (TR (match rest with [] => None | _ :: _ => Some rest end) N). cbn [tok_thread tok_act] in TR.
+      assert (E: tok_threads (replace_nth (threads s) k match rest with [] => None | _ :: _ => Some rest end) = tok_threads (threads s))
+        by (destruct rest; cbn [tok_thread] in TR; lia).
+      inv5; try lia; auto; i4 I4.
+    + (* PStopWait *)
+      destruct (t_busy s =? 0); inversion R; subst s1 more; clear R. simp_a. cbn [app] in *.
+      specialize (TR (match rest with [] => None | _ :: _ => Some rest end) N). cbn [tok_thread tok_act] in TR.
+      assert (E: tok_threads (replace_nth (threads s) k match rest with [] => None | _ :: _ => Some rest end) = tok_threads (threads s))
+        by (destruct rest; cbn [tok_thread] in TR; lia).
       inv5; try lia; auto; i4 I4.
   - (* LRunCb *)
     destruct (t_queued s) as [|q] eqn:Q; [discriminate|]. inversion H; subst; clear H.
@@ -171,7 +177,7 @@ Definition Inv2 (s : aio) : Prop :=
 Lemma inv2_init : Inv2 aio_init.
 Proof. split; [intros; discriminate|reflexivity]. Qed.
 
-Theorem inv2_step s l s' : Inv1 s -> Inv2 s -> astep s l = Some s' -> Inv2 s'.
+Theorem inv2_step s l s' : Inv1 s -> Inv2 s -> astep fixed s l = Some s' -> Inv2 s'.
 Proof.
   intros (I1 & I2 & I3 & I4 & I5) [J1 J2] H. unfold Inv2.
   destruct l as [zero dl sleep eok|rv|rv|now| | |k| | | ]; cbn [astep] in H.
@@ -181,15 +187,18 @@ Proof.
   - destruct (rv =? 0)%N; [discriminate|]. destruct (a_cancel s); inversion H; subst; unfold spawn; simp_a; auto.
   - destruct (a_on_eq s); [|discriminate].
     destruct (negb match a_expire s with Some e => (e <? now)%N | None => false end); [discriminate|].
-    destruct (a_sleep s); [|destruct (a_cancel s)]; inversion H; subst; unfold spawn; simp_a; auto.
+    inversion H; subst; unfold spawn; simp_a; auto.
   - destruct (a_expiring s); [discriminate|]. inversion H; subst. destruct (a_cancel s); unfold spawn; cbn [app]; simp_a; auto.
   - inversion H; subst. destruct (a_cancel s); unfold spawn; simp_a; auto.
   - destruct (nth_error (threads s) k) as [[|a rest]|] eqn:N; try discriminate.
-    destruct (run_pact s a) as [[s1 more]|] eqn:R; [|discriminate]. inversion H; subst; clear H. simp_a.
+    destruct (run_pact fixed s a) as [[s1 more]|] eqn:R; [|discriminate]. inversion H; subst; clear H. simp_a.
     destruct a; cbn [run_pact] in R.
     + inversion R; subst. unfold do_dispatch; simp_a. auto.
     + inversion R; subst. unfold do_finish; simp_a. auto.
     + unfold do_call_cancel in R. destruct (p_owns s); inversion R; subst; simp_a; auto.
+    + unfold do_expire_proc in R.
+      destruct (fixed && negb match a_expire s with Some e => (e <? now)%N | None => false end);
+        [|destruct (a_sleep s); [|destruct (a_cancel s)]]; inversion R; subst; simp_a; auto.
     + inversion R; subst. simp_a. auto.
     + destruct (t_busy s =? 0) eqn:B; inversion R; subst; clear R. simp_a. split; auto. intros _.
       apply Nat.eqb_eq in B. destruct (t_prep s) eqn:P; [lia|].
@@ -203,15 +212,15 @@ Proof.
 Qed.
 
 (* ---- reachability ---- *)
-Lemma arun_inv ls : forall s, Inv1 s -> Inv2 s -> forall s', arun s ls = Some s' -> Inv1 s' /\ Inv2 s'.
+Lemma arun_inv ls : forall s, Inv1 s -> Inv2 s -> forall s', arun fixed s ls = Some s' -> Inv1 s' /\ Inv2 s'.
 Proof.
   induction ls as [|l r IH]; intros s A B s' H; cbn [arun] in H.
   - inversion H; subst. auto.
-  - destruct (astep s l) as [s1|] eqn:S; [|discriminate].
+  - destruct (astep fixed s l) as [s1|] eqn:S; [|discriminate].
     eapply IH; [eapply inv1_step; eauto|eapply inv2_step; eauto|exact H].
 Qed.
 
-Theorem aio_exactly_once ls s : arun aio_init ls = Some s ->
+Theorem aio_exactly_once ls s : arun fixed aio_init ls = Some s ->
   g_subs s = g_cbs s + t_queued s + tokens s /\ g_cbs s <= g_subs s /\ tokens s + t_queued s <= 1 /\
   t_busy s = (if t_prep s then 1 else 0) + t_queued s + t_running s.
 Proof.
@@ -219,7 +228,7 @@ Proof.
   repeat split; auto. lia.
 Qed.
 
-Theorem aio_stop_quiesces ls s : arun aio_init ls = Some s ->
+Theorem aio_stop_quiesces ls s : arun fixed aio_init ls = Some s ->
   g_cb_after_stop s = false /\ (g_stop_returned s = true -> g_subs_at_stop s <= g_cbs s).
 Proof.
   intros H. destruct (arun_inv ls aio_init inv1_init inv2_init s H) as [_ [J1 J2]]. auto.
@@ -227,7 +236,7 @@ Qed.
 
 (* at the moment nni_aio_stop returns nothing is queued, running or in flight *)
 Theorem aio_stop_return_state s k rest s' :
-  Inv1 s -> nth_error (threads s) k = Some (PStopWait :: rest) -> astep s (LRun k) = Some s' ->
+  Inv1 s -> nth_error (threads s) k = Some (PStopWait :: rest) -> astep fixed s (LRun k) = Some s' ->
   t_queued s' = 0 /\ t_running s' = 0 /\ tokens s' = 0 /\ g_cbs s' = g_subs s' /\ a_stop s' = a_stop s.
 Proof.
   intros (I1 & I2 & I3 & I4 & I5) N H. cbn [astep] in H. rewrite N in H. cbn [run_pact] in H.
@@ -268,7 +277,7 @@ Proof. induction ts as [|t r IH]; cbn; [lia|]. pose proof (dsp_le_tok_thread t).
 Definition late_abort_run : list alabel :=
   [LStart false None false false; LProvFinish 0; LRun 0; LAbort A_CANCELED; LRun 0; LRunCb].
 Theorem aio_result_refuted :
-  exists s, arun aio_init late_abort_run = Some s /\ g_bad_result s = true.
+  exists s, arun fixed aio_init late_abort_run = Some s /\ g_bad_result s = true.
 Proof. eexists. split; [vm_compute; reflexivity|reflexivity]. Qed.
 
 (* an abort is "late" when the framework holds no cancel function and a completion is on its way *)
@@ -301,7 +310,7 @@ Qed.
 
 Ltac invr := split; [|split].
 
-Theorem invR_step s l s' : Inv1 s -> InvR s -> not_late s l -> astep s l = Some s' -> InvR s'.
+Theorem invR_step s l s' : Inv1 s -> InvR s -> not_late s l -> astep fixed s l = Some s' -> InvR s'.
 Proof.
   intros HI1 HR NL H. pose proof HI1 as (I1 & I2 & I3 & I4 & I5). pose proof HR as (J1 & J2 & J3).
   unfold InvR.
@@ -327,16 +336,8 @@ Proof.
   - (* LExpire *)
     destruct (a_on_eq s); [|discriminate].
     destruct (negb match a_expire s with Some e => (e <? now)%N | None => false end); [discriminate|].
-    destruct (a_sleep s) eqn:SL.
-    + destruct (I5 eq_refl) as [O _]. pose proof (owns_no_fin s HI1 HR O) as F.
-      assert (D0: dsp_threads (threads s) + t_queued s = 0).
-      { unfold tokens in I3. rewrite O in I3. pose proof (dsp_le_tok (threads s)). lia. }
-      inversion H; subst; clear H. unfold spawn; simp_a. rewrite dsp_threads_app, F.
-      cbn [dsp_threads dsp_thread dsp_act]. invr; auto.
-      * intros r E. inversion E. reflexivity.
-      * split; [intros _; lia|intros _; discriminate].
-    + destruct (a_cancel s); inversion H; subst; clear H; unfold spawn; simp_a;
-        rewrite ?dsp_threads_app; cbn [dsp_threads dsp_thread dsp_act]; invr; auto; rewrite ?Nat.add_0_r; exact J3.
+    inversion H; subst; clear H. unfold spawn; simp_a. rewrite dsp_threads_app.
+    cbn [dsp_threads dsp_thread dsp_act]. invr; auto. rewrite ?Nat.add_0_r. exact J3.
   - (* LStop *)
     destruct (a_expiring s); [discriminate|]. inversion H; subst; clear H.
     destruct (a_cancel s); unfold spawn; cbn [app]; simp_a; rewrite dsp_threads_app;
@@ -347,7 +348,7 @@ Proof.
       cbn [dsp_threads dsp_thread dsp_act]; invr; auto; rewrite ?Nat.add_0_r; exact J3.
   - (* LRun *)
     destruct (nth_error (threads s) k) as [[|a rest]|] eqn:N; try discriminate.
-    destruct (run_pact s a) as [[s1 more]|] eqn:R; [|discriminate]. inversion H; subst; clear H. simp_a.
+    destruct (run_pact fixed s a) as [[s1 more]|] eqn:R; [|discriminate]. inversion H; subst; clear H. simp_a.
     pose proof (dsp_replace (threads s) k (a :: rest)) as DR.
     destruct a; cbn [run_pact] in R.
     + (* PDispatch *)
@@ -381,6 +382,29 @@ Proof.
         assert (E: dsp_threads (replace_nth (threads s) k match rest with [] => None | _ :: _ => Some rest end) = dsp_threads (threads s)).
         { destruct rest; cbn [dsp_thread] in DR; lia. }
         invr; auto. rewrite E. exact J3.
+    + (* PExpireProc *)
+      unfold do_expire_proc in R.
+      destruct (fixed && negb match a_expire s with Some e => (e <? now)%N | None => false end).
+      * inversion R; subst s1 more; clear R. simp_a. cbn [app].
+        specialize (DR (match rest with [] => None | _ :: _ => Some rest end) N). cbn [dsp_thread dsp_act] in DR.
+        assert (E: dsp_threads (replace_nth (threads s) k match rest with [] => None | _ :: _ => Some rest end) = dsp_threads (threads s)).
+        { destruct rest; cbn [dsp_thread] in DR; lia. }
+        invr; auto. rewrite E. exact J3.
+      * destruct (a_sleep s) eqn:SL; [|destruct (a_cancel s) eqn:C]; inversion R; subst s1 more; clear R; simp_a; cbn [app].
+        -- destruct (I5 eq_refl) as [O _]. pose proof (owns_no_fin s HI1 HR O) as F.
+           assert (D0: dsp_threads (threads s) + t_queued s = 0).
+           { unfold tokens in I3. rewrite O in I3. pose proof (dsp_le_tok (threads s)). lia. }
+           specialize (DR (Some (PDispatch :: rest)) N). cbn [dsp_thread dsp_act] in DR.
+           rewrite F. invr; auto.
+           ++ intros r E. inversion E. reflexivity.
+           ++ split; [intros _; lia|intros _; discriminate].
+        -- specialize (DR (Some (PCallCancel (if a_expire_ok s then A_OK else A_TIMEDOUT) :: PExpireDone :: rest)) N).
+           cbn [dsp_thread dsp_act] in DR.
+           invr; auto. split; intros X; [apply J3 in X|apply J3]; lia.
+        -- specialize (DR (match rest with [] => None | _ :: _ => Some rest end) N). cbn [dsp_thread dsp_act] in DR.
+           assert (E: dsp_threads (replace_nth (threads s) k match rest with [] => None | _ :: _ => Some rest end) = dsp_threads (threads s)).
+           { destruct rest; cbn [dsp_thread] in DR; lia. }
+           invr; auto. rewrite E. exact J3.
     + inversion R; subst s1 more; clear R. simp_a. cbn [app].
       specialize (DR (match rest with [] => None | _ :: _ => Some rest end) N). cbn [dsp_thread dsp_act] in DR.
       assert (E: dsp_threads (replace_nth (threads s) k match rest with [] => None | _ :: _ => Some rest end) = dsp_threads (threads s)).
@@ -414,15 +438,15 @@ Qed.
 Fixpoint arun_nl (s : aio) (ls : list alabel) : Prop :=
   match ls with
   | [] => True
-  | l :: r => not_late s l /\ match astep s l with Some s1 => arun_nl s1 r | None => True end
+  | l :: r => not_late s l /\ match astep fixed s l with Some s1 => arun_nl s1 r | None => True end
   end.
 
 Theorem aio_result_consistent_partial ls : forall s s',
-  Inv1 s -> Inv2 s -> InvR s -> arun_nl s ls -> arun s ls = Some s' -> g_bad_result s' = false.
+  Inv1 s -> Inv2 s -> InvR s -> arun_nl s ls -> arun fixed s ls = Some s' -> g_bad_result s' = false.
 Proof.
   induction ls as [|l r IH]; intros s s' A B C NL H; cbn [arun arun_nl] in *.
   - inversion H; subst. apply C.
-  - destruct NL as [NL1 NL2]. destruct (astep s l) as [s1|] eqn:S; [|discriminate].
+  - destruct NL as [NL1 NL2]. destruct (astep fixed s l) as [s1|] eqn:S; [|discriminate].
     eapply (IH s1); eauto.
     + eapply inv1_step; eauto.
     + eapply inv2_step; eauto.
@@ -431,7 +455,7 @@ Qed.
 
 (* ---- progress: the completion machinery is never stuck, and stop returns ---- *)
 Definition w_act (a : pact) : nat :=
-  match a with PCallCancel _ => 6 | PFinish _ => 5 | PDispatch => 4 | PExpireDone => 1 | PStopWait => 1 end.
+  match a with PExpireProc _ => 8 | PCallCancel _ => 6 | PFinish _ => 5 | PDispatch => 4 | PExpireDone => 1 | PStopWait => 1 end.
 Fixpoint w_thread (t : list pact) : nat := match t with [] => 0 | a :: r => w_act a + w_thread r end.
 Fixpoint w_threads (ts : list (list pact)) : nat := match ts with [] => 0 | t :: r => w_thread t + w_threads r end.
 Definition mu (s : aio) : nat := w_threads (threads s) + 2 * t_queued s + t_running s.
@@ -449,11 +473,11 @@ Qed.
 Definition internal (l : alabel) : Prop := match l with LRun _ | LRunCb | LCbDone => True | _ => False end.
 
 (* every step of the library's own threads makes progress *)
-Theorem aio_internal_decreases s l s' : internal l -> astep s l = Some s' -> mu s' < mu s.
+Theorem aio_internal_decreases s l s' : internal l -> astep fixed s l = Some s' -> mu s' < mu s.
 Proof.
   intros I H. destruct l; try destruct I; cbn [astep] in H.
   - destruct (nth_error (threads s) k) as [[|a rest]|] eqn:N; try discriminate.
-    destruct (run_pact s a) as [[s1 more]|] eqn:R; [|discriminate]. inversion H; subst; clear H.
+    destruct (run_pact fixed s a) as [[s1 more]|] eqn:R; [|discriminate]. inversion H; subst; clear H.
     unfold mu. simp_a.
     pose proof (w_replace (threads s) k (a :: rest)) as W.
     destruct a; cbn [run_pact] in R.
@@ -466,6 +490,16 @@ Proof.
       * specialize (W (Some (PFinish rv :: rest)) N). cbn [w_thread w_act] in W. lia.
       * specialize (W (match rest with [] => None | _ :: _ => Some rest end) N). cbn [w_thread w_act] in W.
         destruct rest; cbn [w_thread] in W; lia.
+    + unfold do_expire_proc in R.
+      destruct (fixed && negb match a_expire s with Some e => (e <? now)%N | None => false end);
+        [|destruct (a_sleep s); [|destruct (a_cancel s)]]; inversion R; subst s1 more; clear R; simp_a; cbn [app].
+      * specialize (W (match rest with [] => None | _ :: _ => Some rest end) N). cbn [w_thread w_act] in W.
+        destruct rest; cbn [w_thread] in W; lia.
+      * specialize (W (Some (PDispatch :: rest)) N). cbn [w_thread w_act] in W. lia.
+      * specialize (W (Some (PCallCancel (if a_expire_ok s then A_OK else A_TIMEDOUT) :: PExpireDone :: rest)) N).
+        cbn [w_thread w_act] in W. lia.
+      * specialize (W (match rest with [] => None | _ :: _ => Some rest end) N). cbn [w_thread w_act] in W.
+        destruct rest; cbn [w_thread] in W; lia.
     + inversion R; subst s1 more; clear R. simp_a. cbn [app].
       specialize (W (match rest with [] => None | _ :: _ => Some rest end) N). cbn [w_thread w_act] in W.
       destruct rest; cbn [w_thread] in W; lia.
@@ -475,3 +509,56 @@ Proof.
   - destruct (t_queued s) eqn:Q; [discriminate|]. inversion H; subst. unfold mu. simp_a. lia.
   - destruct (t_running s) eqn:R; [discriminate|]. inversion H; subst. unfold mu. simp_a. lia.
 Qed.
+End Fixed.
+
+(* ---- a timeout is never delivered before the deadline (repaired expire loop);
+        the expire loop of the pinned tree did deliver one: the witness ---- *)
+Lemma early_step s l s' : astep true s l = Some s' -> g_early s = false -> g_early s' = false.
+Proof.
+  intros H E.
+  destruct l as [zero dl sleep eok|rv|rv|now| | |k| | | ]; cbn [astep] in H.
+  - destruct (outstanding s); [discriminate|].
+    destruct (a_stop s); [|destruct (a_abort s); [|destruct zero]]; inversion H; subst; unfold spawn; simp_a; auto.
+  - destruct (p_owns s && negb (p_sleep s)); inversion H; subst; unfold spawn; simp_a; auto.
+  - destruct (rv =? 0)%N; [discriminate|]. destruct (a_cancel s); inversion H; subst; unfold spawn; simp_a; auto.
+  - destruct (a_on_eq s); [|discriminate].
+    destruct (negb match a_expire s with Some e => (e <? now)%N | None => false end); [discriminate|].
+    inversion H; subst; unfold spawn; simp_a; auto.
+  - destruct (a_expiring s); [discriminate|]. inversion H; subst. destruct (a_cancel s); unfold spawn; cbn [app]; simp_a; auto.
+  - inversion H; subst. destruct (a_cancel s); unfold spawn; simp_a; auto.
+  - destruct (nth_error (threads s) k) as [[|a rest]|] eqn:N; try discriminate.
+    destruct (run_pact true s a) as [[s1 more]|] eqn:R; [|discriminate]. inversion H; subst; clear H. simp_a.
+    destruct a; cbn [run_pact] in R.
+    + inversion R; subst. unfold do_dispatch; simp_a. auto.
+    + inversion R; subst. unfold do_finish; simp_a. auto.
+    + unfold do_call_cancel in R. destruct (p_owns s); inversion R; subst; simp_a; auto.
+    + unfold do_expire_proc in R. cbn [andb] in R.
+      destruct (match a_expire s with Some e => (e <? now)%N | None => false end); cbn [negb] in R;
+        [destruct (a_sleep s); [|destruct (a_cancel s)]|]; inversion R; subst; simp_a; rewrite E; reflexivity.
+    + inversion R; subst. simp_a. auto.
+    + destruct (t_busy s =? 0); inversion R; subst. simp_a. auto.
+  - destruct (t_queued s); [discriminate|]. inversion H; subst. simp_a. auto.
+  - destruct (t_running s); [discriminate|]. inversion H; subst. simp_a. auto.
+  - destruct (outstanding s); [discriminate|]. inversion H; subst. simp_a. auto.
+Qed.
+
+Theorem aio_timeout_not_early_holds ls : forall s s',
+  g_early s = false -> arun true s ls = Some s' -> g_early s' = false.
+Proof.
+  induction ls as [|l r IH]; intros s s' E H; cbn [arun] in H.
+  - inversion H; subst; auto.
+  - destruct (astep true s l) as [s1|] eqn:S; [|discriminate]. eapply IH; [|exact H]. eapply early_step; eauto.
+Qed.
+
+(* operation 1 (deadline 5) is found due by the scan at time 10 and marked; before the
+   batch gets to it, it completes, its callback runs, and operation 2 (deadline 1000)
+   is started on the same aio; the pinned loop then cancels operation 2 with a timeout *)
+Definition early_timeout_run : list alabel :=
+  [LStart false (Some 5%N) false false; LExpire 10%N; LProvFinish 0; LRun 1; LRun 1; LRunCb; LCbDone;
+   LStart false (Some 1000%N) false false; LRun 0].
+Theorem aio_timeout_early_refuted :
+  exists s, arun false aio_init early_timeout_run = Some s /\ g_early s = true.
+Proof. eexists. split; [vm_compute; reflexivity|reflexivity]. Qed.
+Theorem aio_timeout_early_repaired :
+  exists s, arun true aio_init early_timeout_run = Some s /\ g_early s = false /\ p_owns s = true /\ a_expiring s = false.
+Proof. eexists. split; [vm_compute; reflexivity|repeat split]. Qed.
